@@ -91,10 +91,16 @@ def mergeText : List Node → List Node
 termination_by l => l.length
 decreasing_by all_goals simp_wf <;> omega
 
+/-- the line break that ends the doctype line is white space like any other: it belongs to the text run that follows -/
+def expandDoctype : List Node → List Node
+  | [] => []
+  | .doctype v :: rest => .doctype v :: .text "\n" :: expandDoctype rest
+  | n :: rest => n :: expandDoctype rest
+
 mutual
 /-- render a node list; `first`/`last`: does a control boundary border the list on that side -/
 partial def renderList (ctx : Ctx) (ns : List Node) (ρ : JS.Env) (ctlBefore ctlAfter : Bool) : Outcome (List Seg × JS.Env) :=
-  let ns := mergeText ns
+  let ns := mergeText (expandDoctype ns)
   let rec go (prev : Option Node) (l : List Node) (ρ : JS.Env) (acc : List Seg) : Outcome (List Seg × JS.Env) :=
     match l with
     | [] => .ok (acc, ρ)
@@ -112,7 +118,7 @@ partial def renderList (ctx : Ctx) (ns : List Node) (ρ : JS.Env) (ctlBefore ctl
 partial def renderNode (ctx : Ctx) (n : Node) (ρ : JS.Env) (ctlBefore ctlAfter : Bool) : Outcome (List Seg × JS.Env) :=
   match n with
   | .text s => .ok (textSegs s ctlBefore ctlAfter, ρ)
-  | .doctype v => .ok ([.lit ("<!DOCTYPE " ++ v ++ ">\n")], ρ)
+  | .doctype v => .ok ([.lit ("<!DOCTYPE " ++ v ++ ">")], ρ)   -- its line break: see `expandDoctype`
   | .codeBuf e esc _ => do
     let v ← evalE ρ e
     let s ← ofOption (JS.printed v) "printing a non-primitive"
